@@ -55,6 +55,9 @@ def st_hostile_filter(draw, store):
     hexish = lambda pool: E.weighted(
         (6, st.sampled_from(pool)), (1, st.sampled_from(pool).map(str.upper)),
         (1, st.sampled_from(pool).map(lambda s: s[:10])), (1, st.sampled_from(pool).map(lambda s: s + "00")),
+        # a stored value with something appended: one more hex digit (odd length), a quote + SQL, a wildcard, NUL
+        (3, st.tuples(st.sampled_from(pool), st.sampled_from(
+            ["0", "a", "f", "0" * 63, "' or '1' like '1", "' OR 1=1 --", "%", "_", "\x00", "'", " ", "\n"])).map("".join)),
         (1, st.sampled_from(HOSTILE)), (1, st.just("zz" * 32)), (1, json_any))
     fields = draw(st.lists(st.sampled_from(["ids", "authors", "kinds", "since", "until", "limit", "tag", "tag",
                                             "longtag", "tags", "unknown", "search"]),
@@ -92,6 +95,31 @@ def st_hostile_filter(draw, store):
     return f
 
 
+SUFFIXES = ["0", "a", "f", "0" * 63, "' or '1' like '1", "' or 1=1 or '' like '", "%' or 'a%' like 'a", "' OR 1=1 --", "%", "_",
+            "\x00", "'", " ", "\n", "') or ('1' like '1", "\\' or 1=1 --"]
+
+
+@st.composite
+def st_suffixed_filter(draw, store):
+    """one otherwise clean filter whose ids / authors / tag list holds a stored value with something appended (longer than a
+    full id, odd number of hex digits, quote + balanced SQL, wildcard): nothing but that entry can get it refused"""
+    ev = draw(st.sampled_from(store))
+    fld = draw(st.sampled_from(["ids", "ids", "authors", "authors", "#e", "#p", "#t"]))
+    base = ev["id"] if fld in ("ids", "#e") else ev["pubkey"] if fld in ("authors", "#p") else "a"
+    vals = [base + draw(st.sampled_from(SUFFIXES))]
+    if draw(st.booleans()):
+        vals.insert(draw(st.integers(0, 1)), draw(st.sampled_from([e["id"] if fld in ("ids", "#e") else e["pubkey"] for e in store])))
+    f = {fld: vals}
+    extra = draw(st.sampled_from([None, None, "kinds", "since", "limit"]))
+    if extra == "kinds":
+        f["kinds"] = [draw(st.sampled_from(store))["kind"]]
+    elif extra == "since":
+        f["since"] = E.T0 - 1000
+    elif extra == "limit":
+        f["limit"] = 5
+    return f
+
+
 @st.composite
 def st_case(draw):
     backend = draw(st.sampled_from(["kv", "sql"]))
@@ -104,7 +132,7 @@ def st_case(draw):
     nf = draw(st.integers(1, 4))
     filters = []
     for _ in range(nf):
-        filters.append(draw(E.weighted((6, st_hostile_filter(store)), (2, qgen.st_filter(store)),
+        filters.append(draw(E.weighted((6, st_hostile_filter(store)), (2, qgen.st_filter(store)), (2, st_suffixed_filter(store)),
                                        (1, st.sampled_from(["x", None, 5, [], [1], {}])))))
     if draw(st.integers(0, 3)) == 0:
         # aim at one stored event that must NOT come back
